@@ -32,6 +32,34 @@ CLAIMS = {
   text="Lean 4 theorems C17_sound, C17_monotone, C17_after_unsub over the subscription algebra of the synchronous catalogue ((), Subscriber, ZipSubscription, boxed): closed ⇒ quiet ⇒ nothing delivered, for all pipelines and histories. Correspondence: is_closed() sampled after every event; oracle on the implementation: no delivery after closed=1, monotone, closed after unsubscribe.",
   note=COMMON_NOTE + "Partial: MultiSubscription/TaskHandle/RefCount/Finalizer subscriptions and late append are not yet covered in this revision.",
   technique="Lean 4 proof (structural induction, closed ⇒ quiet invariant) + differential correspondence check"),
+ "C05": dict(
+  text="Lean 4 theorems C05_limit, C05_once_in_order, C05_completion, C05_accounting, C05_no_stuck (for the repaired code; counterexample + _partial kept for the code before the fix): for every outer script, any mix of cold and hot inner observables, every limit n>=1 and every interleaving, merge_all keeps subscribed<=n, emits each inner's items exactly once in order, completes exactly when outer and all inners have, and never panics/re-locks. Correspondence: suite `flatten` on the real crate (merge_all/concat_all/flatten/flat_map/concat_map, local and _threads) + python oracle computed from the case alone.",
+  note=COMMON_NOTE + "n=1 'outer order' and hot-inner once/in-order are checked by the oracle only; one model serves both flavours (PANIC vs RELOCK differ only in the printed word).",
+  technique="Lean 4 proof (invariants by induction over the event list, ghost provenance tags) + differential correspondence check"),
+ "C06": dict(
+  text="Lean 4 theorems C06_refines, C06_plain, C06_len, C06_finished_empty, C06_spec_* : for EVERY history of subscribe/unsubscribe/next/error/complete/retain/unsubscribe-subject/clone-issued ops/subscribe-in-callback the two-list (observers+chamber) subject refines the abstract {live, done} spec (each item once, in order, to exactly the current subscribers; one terminal each; nothing after; in-callback subscriber misses the in-flight item). Lock level (C06T): per-subscriber logs are subsequences of one global order fixed by acquisition of the observers mutex. Correspondence: all five subject types on the real crate, bounded-exhaustive op sequences + random histories; python oracle from the history.",
+  note=COMMON_NOTE + "Threads part proved for the lock-level LTS only (std Mutex, OS scheduler trusted). Self-unsubscription from inside the subscriber's own callback panics (BorrowMut) and is modelled as such; it is outside the property.",
+  technique="Lean 4 proof (refinement to an abstract spec by induction over histories; LTS for the thread-safe form) + differential correspondence check"),
+ "C07": dict(
+  text="Executable Lean model of the scheduler (Sched/Core: schedule, Remote::poll, OnceTask/RepeatTask, handles, virtual timers) and of delay/observe_on/subscribe_on/delay_subscription (Sched/Chain) tied to the real crate under a harness-controlled executor (hook H1) for FIFO and arbitrary run orders; theorem C07_fire_only_due (timers fire only when due); oracle on the implementation: never early, nothing invented/duplicated, order and completeness under FIFO. The any-run-order clause is REFUTED (known finding: per-notification tasks are not re-sequenced).",
+  note=COMMON_NOTE + "Partial: the order/prefix theorems over the chain model are not yet proved (only the scheduler-level lemma); the claim rests on the validated model + oracle for those clauses. Executor = harness queue, not LocalPool/ThreadPool.",
+  technique="Lean 4 executable model with differential correspondence under all run orders + implementation oracle (proof part: scheduler lemmas)"),
+ "C08": dict(
+  text="Same scheduler model; interval / interval_at / timer / timer_at on the virtual clock under prompt schedules (unit clock steps) and arbitrary fire/poll orders and clock jumps; theorem C08_tick_seq (a continuing tick bumps the sequence counter by one); oracle on the implementation: consecutive integers, never early, spacing >= period, exact times under prompt schedules, timer once then complete.",
+  note=COMMON_NOTE + "Partial: timing theorems over the model are limited to the scheduler lemmas (C19 covers task-level never-early/at-most-once); from_future/from_stream not yet in the suite.",
+  technique="Lean 4 executable model with differential correspondence on a virtual clock + implementation oracle (proof part: scheduler lemmas)"),
+ "C12": dict(
+  text="Lean 4 theorems C12_refines, C12_peek, C12_subscribe_gets_latest, C12_next_by, C12_next_stores for EVERY history over any number of clones: a new subscriber first gets the latest value, then every later item once; peek = latest; next_by f = next (f peek). Lock level (C12T): the property's concurrent clause is stated and REFUTED (C12_race_counterexample: store a, store b, broadcast b, broadcast a) and proved for a single producer (C12_threads_partial). Correspondence: BehaviorSubject over Subject and SubjectThreads, exhaustive short histories + random.",
+  note=COMMON_NOTE + "The two-producer race is a property of the code's two critical sections (store, then broadcast); it is shown in the LTS, not replayed on OS threads in this revision.",
+  technique="Lean 4 proof (refinement by induction over histories; LTS counterexample and partial theorem) + differential correspondence check"),
+ "C15": dict(
+  text="Lean 4 theorems C15_once, C15_not_before, C15_once_count, C15_shapes, C15_chain_at_most_once, C15_chain_le_one, C15_chain_partial for EVERY item prefix and every sequence of complete/error/unsubscribe: the finalizer runs exactly once, right after the first trigger's delivery, never before, never twice; lock level (C15T): in every interleaving of a terminating and an unsubscribing thread the callback runs exactly once. Correspondence: finalize / finalize_threads in operator chains on the real crate; python oracle on marker position and count.",
+  note=COMMON_NOTE + "Known finding: with a self-completing operator below finalize (finalize(f).take(n)) the source terminal is filtered out by the subject (is_finished) and the callback runs only on unsubscribe (C15_chain_full refuted, C15_chain_partial proved).",
+  technique="Lean 4 proof (case analysis + induction over event sequences; verified schedule enumeration for the 2-3 thread LTS) + differential correspondence check"),
+ "C20": dict(
+  text="Lean 4 theorems C20_groups, C20_routing, C20_routing_own, C20_flatten, C20_terminal (for EVERY drain order), C20_terminal_once, C20_after_terminal, C20_world: for every item list, key function and attach policy group_by announces one group per distinct key in first-appearance order, routes each item once, in order, to its own group only, delivers the source terminal once to every group and the outer stream, and flattening reproduces the source. Correspondence: group_by over Subject/SubjectThreads, all scripts <=6 over 4 values x 4 key functions x terminals; python oracle from the script.",
+  note=COMMON_NOTE + "Known finding: group_by(..).take(n) on the outer stream — after take completed, the source terminal never reaches the announced groups (subject filters finished observers).",
+  technique="Lean 4 proof (induction over the item list; permutation-parametric terminal fan-out) + differential correspondence check"),
 }
 
 def chk(pid, c):
